@@ -108,7 +108,9 @@ var (
 	ids      = []string{"i1", "i2"}
 	attrKeys = []string{"a", "b", "data-x"}
 	// attribute values: blanks, doubled / leading / trailing spaces, dashes, case variants
-	attrVals = []string{"", "x", "y", "x y", "x  y", " x", "x ", "  ", " ", "x-y", "x-", "-", "X", "xY", "xy", "yx", "x\ty", "c1", "c1 c2", "c2  c1", " k", "é", "x\"y", "x\\y", "\u212a", "K", "k", "\u017fx", "\u00a0"}
+	attrVals = []string{"", "x", "y", "x y", "x  y", " x", "x ", "  ", " ", "x-y", "x-", "-", "X", "xY", "xy", "yx", "x\ty", "c1", "c1 c2", "c2  c1", " k", "é", "x\"y", "x\\y", "\u212a", "K", "k", "\u017fx", "\u00a0",
+		// near-white-space characters that are NOT white space in Selectors / HTML: they never separate words
+		"x\vy", "c1\vc2", "\vx", "x\v", "\v", "x\u00a0y", "c1\u00a0c2", "x\u2003y", "\ufeffx", "x\ufeff", "x\x1cy", "x\x1dy", "x\x1ey", "x\x1fy", "x\u0085y", "c2\u0085c1", "x \vy", "x\v y"}
 	texts    = []string{"", " ", "\n", " \t\n\f\r", "t", " t ", "x y"}
 )
 
@@ -129,7 +131,7 @@ func genAttrs(r *rng.R, o treeOpts) []html.Attribute {
 				cs = append(cs, rng.Pick(r, classes...))
 			}
 		}
-		sep := rng.Pick(r, " ", " ", "  ", "\t", "\n")
+		sep := rng.Pick(r, " ", " ", "  ", "\t", "\n", "\f", "\r", "\v", "\u00a0", "\u2003", "\ufeff", "\x1c", "\x1f", "\u0085", " \v", "\v ")
 		v := strings.Join(cs, sep)
 		if r.P(1, 8) {
 			v = " " + v
@@ -274,7 +276,8 @@ func (g *selGen) f(s string) { g.feat[s] = true }
 // names that need escaping when written as CSS identifiers (leading digits / hyphens, specials, control
 // characters, non-ASCII); the escapes stream uses them in the trees too, so that the selectors match something
 var oddNames = []string{"123", "1", "-1", "-1x", "--", "-", "-a", "_", "a.b", "#x", "c1 ", "a b", ":k", "a,b", "a>b", "a+b~c", "a[b]", "a(b)",
-	"x\"y", "x'y", "x\\y", "a\x03b", "\x01", "\x7f", "a\tb", "ét", "\u6f22", "\U0001f600x", "Az", "a!b", "a=b", "a|b", "a*b", "a/b", "a@b", "9lives", "-9", "a\nb"}
+	"x\"y", "x'y", "x\\y", "a\x03b", "\x01", "\x7f", "a\tb", "ét", "\u6f22", "\U0001f600x", "Az", "a!b", "a=b", "a|b", "a*b", "a/b", "a@b", "9lives", "-9", "a\nb",
+	"c1\vc2", "c2\vc1", "k\v", "\vk", "c1\u00a0c2", "c1\u2003c2", "\ufeffk", "c1\x1cc2", "c1\x1fc2", "c1\u0085c2"}
 
 // odd attribute values: quotes, backslashes, newlines, control characters, non-ASCII
 var oddVals = []string{"x\"y", "x'y", "x\\y", "\\", "\"", "a\nb", "a\rb", "a\fb", "a\tb", "\x01", "a\x7fb", "é\"", "\u6f22\\", "x\\\"y", "]", "[a=\"b\"]", "a\\\nb", "\\a", "\\31 "}
